@@ -267,6 +267,8 @@ type c46Run struct {
 	abort    chan struct{}
 	degraded atomic.Bool
 	why      atomic.Value
+	early    bool // the bundler returned before every worker was released
+	dirty    bool // ... and some worker may still be using the files: no further schedule on them
 }
 
 func (r *c46Run) degrade(why string) {
@@ -804,12 +806,32 @@ func c46RunPhase(e *c46Env, remote bool, in []byte, elig []int, prio map[int]int
 		close(r.abort)
 		wg.Wait()
 	} else {
-		// early return: unblock whatever is left of the call (leaked workers waiting on FIFOs)
+		// The bundler returned while workers were still gated (never on the unchanged tree).
+		// Let every one of them get past its I/O before the files are used again.
+		r.early = true
 		close(r.abort)
+		var wg sync.WaitGroup
 		for _, i := range elig {
 			if !cached[i] && isFifo(i) && !r.rt[i].written.Load() {
-				c46WriteFifo(e.paths[i], nil, 50*time.Millisecond, nil, nil)
+				wg.Add(1)
+				go func(i int) {
+					defer wg.Done()
+					c46WriteFifo(e.paths[i], c.Imgs[i].content(), 2*time.Second, nil, r.rt[i].post)
+				}(i)
 			}
+		}
+		wg.Wait()
+		for _, i := range elig {
+			if cached[i] {
+				continue
+			}
+			t := time.NewTimer(2 * time.Second)
+			select {
+			case <-r.rt[i].post:
+			case <-t.C:
+				r.dirty = true
+			}
+			t.Stop()
 		}
 	}
 	e.mu.Lock()
@@ -973,6 +995,7 @@ func checkC46(h *hx.H, c c46Case) {
 	totalElig, totalFail := 0, 0
 	nonIdentity := false
 	degradedRuns := 0
+	earlyReturn, dirty := false, false
 	var failKinds, ctypes = map[string]bool{}, map[string]bool{}
 
 	for k, order := range c.Orders {
@@ -989,6 +1012,12 @@ func checkC46(h *hx.H, c c46Case) {
 			res, run := c46RunPhase(e, remote, cur, elig, prio, cached, c.Sched)
 			if run.degraded.Load() {
 				runDegraded = true
+			}
+			if run.early {
+				earlyReturn = true
+			}
+			if run.dirty {
+				dirty = true
 			}
 			kind := "local"
 			if remote {
@@ -1085,6 +1114,12 @@ func checkC46(h *hx.H, c c46Case) {
 			degradedRuns++
 		}
 		totalElig, totalFail = nElig, nFail
+		if dirty || v.sig != "" {
+			break // the first disagreement decides; after a dirty early return the files cannot be reused
+		}
+	}
+	if earlyReturn {
+		h.Label("returned_before_all_workers_released")
 	}
 	if len(e.urlBad) > 0 {
 		h.Label("unknown_url_requested")
@@ -1103,7 +1138,7 @@ func checkC46(h *hx.H, c c46Case) {
 	if bad >= 0 {
 		v := verdicts[bad]
 		if good > 0 {
-			h.Failf("order-dependent:"+v.sig, "%d of %d schedules of the same input agree with the reference, but %s", good, len(verdicts), v.msg)
+			h.Failf("order-dependent:"+v.sig, "%d earlier schedule(s) of the same input agree with the reference, but %s", good, v.msg)
 		}
 		h.Failf(v.sig, "%s", v.msg)
 	}
@@ -1398,10 +1433,10 @@ func coreC46() []c46Case {
 		out = append(out, c)
 	}
 	// a response larger than the bundler's limit is a failure
-	{
+	if !c46Race {
 		c := c46Shape(3, "remote", 0, "strict")
 		c.Imgs[1].Fail = "toolarge"
-		c.Orders = [][]int{{2, 1, 0}, {1, 0, 2}}
+		c.Orders = [][]int{{2, 1, 0}}
 		c.Note = "toolarge"
 		out = append(out, c)
 	}
